@@ -178,6 +178,12 @@ def run_case(case):
             for fam in FAMS:
                 _check_fit(r, fam, X, case, f'n={n} pattern#{idx} {mapping}')
                 r.state((n, idx, mapping, fam))
+                if n <= 3 and mapping == 'open':
+                    # every small array with one entry pushed out of [0,1] must be refused
+                    for (i, j, bad) in ((0, 0, -0.01), (n - 1, 1, 1.01), (0, 1, 1.7)):
+                        Y = X.copy()
+                        Y[i, j] = bad
+                        _check_fit(r, fam, Y, case, f'n={n} pattern#{idx} with entry [{i},{j}]={bad}')
         r.hit(f'n={n}', stop - start)
         r['sample'] = {'n': n, 'pattern_index': start, 'mapping': mapping,
                        'X': A.pattern_array(n, start, mapping).tolist()}
